@@ -1,6 +1,7 @@
 package main
 
 import (
+	"bytes"
 	"fmt"
 	"math"
 	"math/big"
@@ -807,7 +808,18 @@ func c12RangeMixed(c *hx.Ctx, r *hx.RNG) {
 	if ds[0] == '0' {
 		ds[0] = '1'
 	}
+	sparse := r.Chance(20)
+	if sparse {
+		// 1.000...0001: a power of ten plus a little (a unit dozens of binary places down) - next to a decade, hence, at
+		// the top of the range, next to the range's end, on either side of it after rounding
+		nd = r.Range(20, 110)
+		ds = bytes.Repeat([]byte{'0'}, nd)
+		ds[0], ds[nd-1] = '1', alpha[1+r.Intn(len(alpha)-1)]
+	}
 	k := r.Intn(nd) // at least one fractional digit
+	if sparse {
+		k = 1
+	}
 	m, _ := new(big.Int).SetString(string(ds), int(1<<uint(bits)))
 	f := int64(nd-k) * bits
 	nines := r.Chance(30)
@@ -830,6 +842,9 @@ func c12RangeMixed(c *hx.Ctx, r *hx.RNG) {
 	// aim the exponent so that the value's leading digit lands within a few places of a range end
 	end := []int64{oracle.MaxExp, oracle.MinExp}[r.Intn(2)]
 	e := end - oracle.Digits(coef) + f + int64(r.Range(-12, 12))
+	if sparse {
+		e = end + int64(r.Range(-2, 1)) // the value is 1.00..0x times 10^e
+	}
 	neg := r.Bool()
 	text := map[bool]string{true: "-", false: ""}[neg] + pre + string(ds[:k]) + "." + string(ds[k:]) + "e" + strconv.FormatInt(e, 10)
 	what := fmt.Sprintf("Parse(%q, 0)", text)
@@ -843,6 +858,9 @@ func c12RangeMixed(c *hx.Ctx, r *hx.RNG) {
 	p := int64(r.Range(1, 45))
 	if nines {
 		p = int64(r.Range(1, 8))
+	}
+	if sparse {
+		p = int64(r.Range(1, 60))
 	}
 	z := usedRecv(r, p, mode)
 	var res *decimal.Decimal
@@ -865,7 +883,14 @@ func c12RangeMixed(c *hx.Ctx, r *hx.RNG) {
 		return
 	}
 	if !inRange {
-		return // rejected, or saturated: both are defensible for a value the type cannot hold
+		// below the range: rejected or flushed to zero, both are defensible for a value the type cannot hold. Above it the
+		// statement is explicit - an exponent outside the int32 range is rejected - and the decimal spellings of the same
+		// values are ("10e2147483647", "0b1.1e2147483647"): only a value inside the range whose *rounding* carries out of
+		// it becomes an infinity.
+		if lead > oracle.MaxExp && err == nil {
+			c.Violate("exponent-range", fmt.Sprintf("%s: accepted as %s although the value %se%d lies above the exponent range", what, hx.Snapshot(res), coef, e-f), "")
+		}
+		return
 	}
 	if err != nil {
 		kf := ""
